@@ -67,19 +67,25 @@ def delay_with_mapper_(
 
                     d = SingleAssignmentDisposable()
                     delays.add(d)
+                    released = [False]
+
+                    def release() -> None:
+                        # The first notification of the delay releases the
+                        # element. A delay that emits and completes while it
+                        # is still being subscribed is not detached yet, so
+                        # its second notification has to be ignored here.
+                        if released[0]:
+                            return
+                        released[0] = True
+                        observer.on_next(x)
+                        delays.remove(d)
+                        done()
 
                     def on_next(_: Any) -> None:
-                        observer.on_next(x)
-                        delays.remove(d)
-                        done()
-
-                    def on_completed() -> None:
-                        observer.on_next(x)
-                        delays.remove(d)
-                        done()
+                        release()
 
                     d.disposable = delay.subscribe(
-                        on_next, observer.on_error, on_completed, scheduler=scheduler
+                        on_next, observer.on_error, release, scheduler=scheduler
                     )
 
                 def on_completed() -> None:
